@@ -159,13 +159,17 @@ def _build(item):
                 "subs": {"#none": {"formals": [], "locals": [], "body": []}},
                 "serial": serial["body"], "pre": pre, "post": post, "loop": eloop,
                 "private": [p for p in private if p != eloop["var"]], "firstprivate": fpriv,
-                "sched": "static" if str(sch).startswith("static") else "any", "tmax": 2}
+                "sched": "static" if str(sch).startswith("static") else "any",
+                "tmax": 3 if _TIER[0] == "thorough" else 2}
         for dd in case["decls"]:
             if dd["name"] == "idx":
                 dd["data"] = [[2, 1, 4, 3], [1, 1, 2, 2]]
         out.append({"id": cid, "status": "accepted", "case": case, "src": src, "after": text,
                     "private": private, "firstprivate": fpriv, "variant": variant})
     return out
+
+
+_TIER = ["quick"]
 
 
 def _aslist(st):
@@ -189,6 +193,7 @@ MATCHERS = {"conditionally-written-scalar-firstprivate": m_conditional_firstpriv
 def run(tier):
     core.setup_psyclone_env()
     out = core.Outcome("C09", tier, "model_checking", matchers=MATCHERS)
+    _TIER[0] = tier
     results = [r for part in core.pool_map(_build, items(tier), chunksize=1) for r in part]
     stat = {}
     for r in results:
@@ -218,7 +223,7 @@ def run(tier):
            "samples": [{"id": r["id"], "after": r["after"]} for r in acc[:: max(1, len(acc) // 4)][:4]],
            "exhaustive": False}
     return out.finish(cov, assumptions=[
-        "threads 1..2, trip counts 0..3, top-level statements of the loop body are atomic steps",
+        "threads 1..2 (1..3 in the thorough tier), trip counts 0..3, top-level statements of the loop body are atomic steps",
         "schedule(static): contiguous blocks in thread order; other kinds: any distribution",
         "the value of private/firstprivate scalars after the region is excluded (documented limitation)",
         "the directive sits at the top level of the routine and owns exactly one loop"])
